@@ -31,6 +31,7 @@ OPTSETS = [
     ("rest+mixins", ["transport=rest"], ["operations", "locations"]),
     ("grpc+rest+retry-config", ["transport=grpc+rest", "retry-config"], None),
     ("grpc+renamed+metadata", ["transport=grpc+rest", "python-gapic-name=renamed_lib", "python-gapic-namespace=vp.other", "metadata"], None),
+    ("grpc+rest+async-rest+ops", ["transport=grpc+rest", "async-rest"], ["operations"]),
 ]
 
 
@@ -42,7 +43,7 @@ def floors(tier):
 
 
 def plan(seed, tier):
-    n = 18 if tier == "quick" else 144
+    n = 26 if tier == "quick" else 156
     cases = [{"id": f"suite-{seed}-{i}", "seed": seed * 100003 + i, "optset": i % len(OPTSETS), "kind": "conventional"} for i in range(n)]
     cases.append({"id": "suite-speech", "seed": seed, "optset": 2, "kind": "speech"})
     return cases
@@ -71,9 +72,13 @@ def build_api(case):
                 "retryPolicy": {"initialBackoff": "0.2s", "maxBackoff": "12s", "backoffMultiplier": 1.5, "retryableStatusCodes": ["UNAVAILABLE", "DEADLINE_EXCEEDED"]}},
                {"name": names[len(names) // 2: len(names) // 2 + 2], "timeout": "7.5s"}]
         api.aux["retry-config"] = ("retry.json", _json.dumps({"methodConfig": cfg}))
+    pub = None
+    if "async-rest" in opts:
+        opts.remove("async-rest")
+        pub = {"library_settings": [{"version": api.info["pkg"], "python_settings": {"experimental_features": {"rest_async_io_enabled": True}}}]}
     api.options = opts
-    if mixins is not None:
-        api.aux["service-yaml"] = ("svc.yaml", apigen.service_yaml(api, mixins=mixins))
+    if mixins is not None or pub:
+        api.aux["service-yaml"] = ("svc.yaml", apigen.service_yaml(api, mixins=mixins or [], publishing=pub))
     return api, label
 
 
